@@ -25,8 +25,8 @@ def selftest(ctx, fam, corrupt):
     ctx.build_harness()
     base = ctx.scratch + "/self.ndjson"
     ctx.harness(gen(fam)(base), env={"VERIF_SHARDS": "64"})
-    lines = open(base + ".0").read().splitlines()[:400]
-    rl = open(base + ".replay.0").read().splitlines()[:400]
+    lines = open(base + ".0").read().split("\n")[:400]
+    rl = open(base + ".replay.0").read().split("\n")[:400]
     bad = 0
     out = []
     for i, ln in enumerate(lines):
